@@ -64,7 +64,8 @@ def rules_job(rules):
 
 
 def forms_job(job):
-    tabs, nfs = job
+    tabs, nfs = job[:2]
+    deep = len(job) > 2 and job[2]
     from yadism.coefficient_functions.light import f2_cc, f2_nc, f3_cc, f3_nc, fl_cc, fl_nc, g1_nc
 
     where = {"C2q": [("f2_nc.NonSinglet", f2_nc.NonSinglet), ("f2_cc.NonSingletEven", f2_cc.NonSingletEven), ("f2_cc.NonSingletOdd", f2_cc.NonSingletOdd)],
@@ -74,6 +75,9 @@ def forms_job(job):
              "C2g": [("f2_nc.Gluon", f2_nc.Gluon), ("f2_cc.Gluon", f2_cc.Gluon)],
              "CLg": [("fl_nc.Gluon", fl_nc.Gluon)], "G1g": [("g1_nc.Gluon", g1_nc.Gluon)]}
     zs = np.concatenate([0.5 * (1 - np.cos(np.pi * (np.arange(60) + 0.5) / 60)), [1e-6, 1e-3, 1 - 1e-3, 1 - 1e-6]])
+    if deep:   # thorough: 1500 Chebyshev nodes and both end regions on logarithmic ladders down to 1e-9
+        lad = np.logspace(-9, -1.5, 60)
+        zs = np.concatenate([0.5 * (1 - np.cos(np.pi * (np.arange(1500) + 0.5) / 1500)), lad, 1 - lad])
     d0, d1 = float(common.frac(tabs["d0"])), float(common.frac(tabs["d1"]))
     delta = float(common.frac(tabs["delta"][0])) + float(common.frac(tabs["delta"][1])) * Z2
     lines = []
@@ -87,7 +91,9 @@ def forms_job(job):
                 worst, note = 0.0, ""
                 for z in zs:
                     a, b = float(r.reg(z, r.args["reg"])), lit(float(z))
-                    d = abs(a - b) / (abs(b) + 1e-9)
+                    # in units of the tolerance 1e-10 + the conditioning of (1 - z), z in double precision (z - z^2 and the like
+                    # lose eps / min(z, 1-z) whichever way they are written)
+                    d = abs(a - b) / (abs(b) + 1e-9) * 1e-10 / (1e-10 + 2e-15 / min(z, 1 - z))
                     if not (d <= worst):
                         worst, note = d if d == d else float("inf"), f"z={z}: code {a!r}, closed form {b!r}"
                 if t["name"] in ("C2q", "C3q", "G1q"):
@@ -118,7 +124,7 @@ def run(ctx):
     rules = common.read_ndjson(out2)
     nfs = (3, 5, 4) if q else (3, 4, 5, 6)
     rules = [r for r in rules if r["nf"] in nfs]
-    res = ctx.pmap(rules_job, [rules]) + ctx.pmap(forms_job, [(tabs, nfs), (tabs, tuple(reversed(nfs)))])
+    res = ctx.pmap(rules_job, [rules]) + ctx.pmap(forms_job, [(tabs, nfs, not q), (tabs, tuple(reversed(nfs)), not q)])
     lines = [ln for rows in res for ln in rows]
     uniq = {}
     for ln in lines:
